@@ -320,7 +320,8 @@ impl<'a> Gen<'a> {
             13 => U::Kw("em", 786_432_000),
             14 => U::Kw("ex", 786_432_000),
             15..=17 => U::Internal,
-            _ if inf => U::Fil(self.rng.range_usize(1, 3)),
+            // four l's: 'Illegal unit of measure (replaced by filll)'
+            _ if inf => U::Fil(1 + self.rng.weighted(&[7, 6, 6, 1])),
             _ => U::Kw("pt", 65_536_000),
         };
         let per = match unit {
